@@ -52,6 +52,15 @@ class C08(XsProp):
                 a, b = rng.choice(classes), rng.choice(classes)
                 extra = (' | push %s' % rng.choice(classes)) if rng.random() < 0.3 else ''
                 cs.append('%s%s%s | push %s | push %s | eval %s | pretty' % (pre, rec, extra, a, b, hw))
+        # (a') every word on the zero-like second operands (plain, negative zero, tagged), which guard divisions, shifts and sizes
+        zeros = ['I0', 'G(I0,M(S6b=I1))', 'R0000000000000000', 'R8000000000000000', 'G(R0000000000000000,M(S6b=I1))', 'G(I0,M(S23666d74=I10))']
+        firsts = ['I7', 'I-80000000000000000000000000000000', 'R3ff8000000000000', 'G(I5,M(S6b=I1))', 'S3132', 'V(I1,I2,I3)', 'B10100101']
+        for w in names:
+            if w in SOUP_SKIP or w in (':', 'var', 'local', 'late', 'const', 'defined', 'see', '!', 'enum', '<name>'):
+                continue
+            for a in firsts:
+                for b in zeros:
+                    cs.append('%s | push %s | push %s | eval %s | pretty' % (pre, a, b, hexsrc(w)))
         # (b) token soup
         lits = ['0', '1', '-1', '9223372036854775807', '18446744073709551616', '-170141183460469231731687303715884105728', '1.5', '"s"', '"é"',
                 '|ff|', '|x.x|', '[', ']', '{', '}', '#(', '#)', '\\ c\n', '\\( x \\)', 'é', '\x0b', '"abc', '0x', 'nosuch', '^{', '^}']
